@@ -316,7 +316,7 @@ func (m *Machine) sampleWitness() {
 		return
 	}
 	n := m.Res.Paths
-	if n > 3 && n%7 != 0 {
+	if m.Cfg.Witnesses < 8 && n > 3 && n%7 != 0 {
 		return
 	}
 	vals := append([]*Term(nil), m.nondet...)
